@@ -282,7 +282,7 @@ impl Th {
         let obj = with(|s| {
             let o = s.obj_of_word(w);
             if let Some(o) = o {
-                if s.objs[o].popped {
+                if s.objs[o].popped && !s.tolerate_own {
                     let d = format!(
                         "an Rc to obj{} was handed out by `{}` after the object's destruction had started (popped={} dropped={} freed={}); trace: {}",
                         o, origin, s.objs[o].popped, s.objs[o].dropped, s.objs[o].freed, s.tail(40)
@@ -570,6 +570,9 @@ impl Th {
     }
 
     fn check_payload(&self, what: &str, node: &VNode, obj: usize) {
+        if with(|s| s.compromised.contains(&obj)) {
+            return;
+        }
         let (id, val, canary) = (node.id, node.val, node.canary);
         with(|s| {
             let o = &s.objs[obj];
@@ -1792,6 +1795,9 @@ pub fn run_case(case: &RcCase) -> RcRun {
     let n = case.threads.len().max(1);
     let sequential = n == 1;
     shadow::init(shared, sequential);
+    if *CURRENT_PROP.lock().unwrap() == "C04" {
+        with(|s| s.tolerate_own = true);
+    }
     // the main thread's participant exists before the workers start
     for _ in 0..case.align {
         round();
@@ -1931,6 +1937,9 @@ static CURRENT_PROP: std::sync::Mutex<&'static str> = std::sync::Mutex::new("");
 pub fn exec(prop: &str, v: &serde_json::Value) -> Report {
     if prop == "C01" {
         *CURRENT_PROP.lock().unwrap() = "C01";
+    }
+    if prop == "C04" {
+        *CURRENT_PROP.lock().unwrap() = "C04";
     }
     let case: RcCase = serde_json::from_value(v.clone()).expect("bad RcCase");
     let run = run_case(&case);
